@@ -130,6 +130,9 @@ THEORY = [
     ('tel_head', '&tel { a }.', 'accept'), ('tel_head_body', '&tel { a | > b } :- q.', 'accept'),
     ('tel_head_past_op', '&tel { < a }.', 'reject'), ('tel_head_since', '&tel { a <? b }.', 'reject'), ('tel_head_impl', '&tel { a -> b }.', 'reject'), ('tel_head_eqv', '&tel { a <> b }.', 'reject'),
     ('tel_head_two_terms', '&tel { a, b }.', 'reject'), ('tel_head_prime_trail', "&tel { a' }.", 'reject'), ('tel_head_prime_lead', "&tel { 'a }.", 'reject'), ('tel_head_prime_nested', "&tel { b | > a' }.", 'reject'),
+    ('tel_cond_rule', 'r :- not &tel { a : q }.', 'accept'), ('tel_cond_rule_notnot', 'r :- not not &tel { > a : q, b }.', 'accept'), ('tel_cond_choice', '{ r } :- not &tel { a : q }.', 'accept'),
+    ('del_cond_rule', 'r :- not &del { a .>? b : q }.', 'accept'), ('tel_cond_rule_pos', 'r :- &tel { a : q }.', 'reject'), ('tel_cond_show', '#show r : not &tel { a : q }.', 'accept'),
+    ('tel_cond_two_elements', 'r :- not &tel { a : q ; > b : not q }.', 'accept'),
     ('tel_head_prime_args', "&tel { p'(X) } :- q(X).", 'reject'), ('tel_head_prime_lead_args', "&tel { > 'p(1,2) } :- q.", 'reject'), ('tel_head_prime_neg_args', "&tel { b | -p'(1) } :- q.", 'reject'),
     ('tel_head_two_terms_next', '&tel { a, > b } :- q.', 'reject'), ('tel_head_cond_two', '&tel { > a : b ; >> c }.', 'reject'),
     ('tel_head_inner_prime', "&tel { a'b }.", 'accept'), ('del_two_terms', ':- not &del { a .>? b, b }.', 'reject'), ('del_two_elements', ':- not &del { a .>? b ; &true .>* b }.', 'accept'), ('del_cond', ':- not &del { a .>? b : q }.', 'accept'), ('tel_head_cond', '&tel { a : q }.', 'reject'),
